@@ -1,5 +1,5 @@
 (* C02 — suggest: exact count, sticky per worker, fresh ids.  Statements only. *)
-From VZ Require Import Base.Prelude Model.Service Proofs.ServiceP Proofs.WedgeP Proofs.StickyP.
+From VZ Require Import Base.Prelude Model.Service Proofs.ServiceP Proofs.WedgeP Proofs.StickyP Proofs.ReachP.
 
 (* every new trial is numbered max+1: creating it always succeeds, appends it, its id is larger than every id in the
    study and the maximum grows by exactly one (so ids increase with creation order) *)
@@ -37,6 +37,19 @@ Theorem C02_sticky : forall s k n c count po,
     (exists n', get_node k (nodes s') = Some n' /\ n_trials n' = n_trials n /\ n_study n' = n_study n).
 Proof. exact sticky. Qed.
 Print Assumptions C02_sticky.
+
+(* on states reachable from the initial state the numbering hypothesis always holds (Proofs/NumberedP.v) *)
+Theorem C02_sticky_on_reachable_states : forall ops k n c count po,
+  let s := run_all ops init_state in
+  get_node k (nodes s) = Some n -> immutable (n_study n) = false ->
+  (forall o, In o (filter (fun o => N.eqb (o_client o) c) (n_ops n)) -> o_done o = true) ->
+  count <= length (filter (fun t => tstate_eqb (t_state t) ACTIVE && N.eqb (t_client t) c) (n_trials n)) ->
+  exists o s', step s (SuggestTrials k c count, po) = (s', Done (RpOp o)) /\
+    o_done o = true /\ o_err o = false /\
+    o_trials o = firstn count (filter (fun t => tstate_eqb (t_state t) ACTIVE && N.eqb (t_client t) c) (n_trials n)) /\
+    (exists n', get_node k (nodes s') = Some n' /\ n_trials n' = n_trials n /\ n_study n' = n_study n).
+Proof. exact sticky_reachable. Qed.
+Print Assumptions C02_sticky_on_reachable_states.
 
 (* PARTIAL: the three-source order (own ACTIVE, queued REQUESTED, new) and the queueing of surplus suggestions are decided by
    correspondence + monitor: the loops of SuggestTrials are modelled and executed, their effect is not yet stated as a theorem. *)
